@@ -218,10 +218,14 @@ func runLayout(cs *l2Case, li int, text string) (l2Out, error) {
 	var out l2Out
 	err := pt.WithWorker(sut.Options{}, func(c *sut.Client) error {
 		if err := ingestLayout(c, evs, cs.Layouts[li]); err != nil {
+			// ingest is not what this property is about: any trouble there is environment trouble
 			if errors.Is(err, sut.ErrWorkerDied) {
 				return pt.Inconclusivef("worker died during ingest: %s", pt.CrashDetail(c))
 			}
-			return err
+			if _, ok := err.(*pt.Inconclusive); ok {
+				return err
+			}
+			return pt.Inconclusivef("ingest: %v", err)
 		}
 		sr, err := c.Search(sut.Query{Index: l2Index, Text: text, Start: baseTs - 10_000_000, End: baseTs + 10_000_000,
 			Size: len(evs)*6 + 100, IncludeNulls: true})
@@ -250,6 +254,104 @@ func runLayout(cs *l2Case, li int, text string) (l2Out, error) {
 		return nil
 	})
 	return out, err
+}
+
+// referencedColumns returns the table columns the chain reads (all of them if a command works on
+// every column).
+func referencedColumns(cs *l2Case) map[string]bool {
+	ref := map[string]bool{}
+	all := false
+	for _, c := range cs.Chain {
+		if c.Expr != nil {
+			c.Expr.fields(ref)
+		}
+		for _, f := range c.Fields {
+			ref[f] = true
+		}
+		for _, f := range c.By {
+			ref[f] = true
+		}
+		for _, k := range c.Sort {
+			ref[k.Field] = true
+		}
+		for _, a := range c.Aggs {
+			ref[a.Field] = true
+		}
+		switch c.Op {
+		case "regex", "rex", "bin", "makemv", "mvexpand", "rename":
+			ref[c.Field] = true
+		case "fillnull":
+			if len(c.Fields) == 0 {
+				all = true
+			}
+		}
+	}
+	if all {
+		for _, c := range cs.Table.Cols {
+			ref[c.Name] = true
+		}
+	}
+	return ref
+}
+
+// columnAbsentFromSegment names a column the chain reads that has values somewhere in the table but
+// in no event of one block (flush or rotation unit) of layout li; "" if there is none.
+func columnAbsentFromSegment(cs *l2Case, li int) string {
+	tb, l := cs.Table, cs.Layouts[li]
+	n := len(tb.Rows)
+	order := make([]int, n)
+	for i := range order {
+		order[i] = i
+		if cs.Reverse[li] {
+			order[i] = n - 1 - i
+		}
+	}
+	var segs [][]int
+	var cur []int
+	pos := 0
+	for i, b := range l.Batches {
+		cur = append(cur, order[pos:pos+b]...)
+		pos += b
+		if l.Rotate[i] || l.Flush[i] {
+			segs = append(segs, cur)
+			cur = nil
+		}
+	}
+	if len(cur) > 0 {
+		segs = append(segs, cur)
+	}
+	ref := referencedColumns(cs)
+	for j, c := range tb.Cols {
+		if c.Kind == kTime || !ref[c.Name] {
+			continue
+		}
+		anywhere := false
+		for _, r := range tb.Rows {
+			if !r[j].IsNull() {
+				anywhere = true
+				break
+			}
+		}
+		if !anywhere {
+			continue
+		}
+		for _, seg := range segs {
+			if len(seg) == 0 {
+				continue
+			}
+			has := false
+			for _, ri := range seg {
+				if !tb.Rows[ri][j].IsNull() {
+					has = true
+					break
+				}
+			}
+			if !has {
+				return c.Name
+			}
+		}
+	}
+	return ""
 }
 
 func firstLines(s string, n int) string {
@@ -288,6 +390,11 @@ func checkL2(cs *l2Case, o *pt.Obs) error {
 	var ref l2Out
 	multiBlock := false
 	for li := range cs.Layouts {
+		if col := columnAbsentFromSegment(cs, li); col != "" && pt.KnownFindingOpen("C06-column-absent-from-segment") {
+			// the single place where this listed finding is excluded: exactly the layouts of its predicate
+			o.Known("C06-column-absent-from-segment")
+			continue
+		}
 		out, err := runLayout(cs, li, text)
 		if err != nil {
 			if _, ok := err.(*pt.Inconclusive); ok {
@@ -343,6 +450,26 @@ func checkL2(cs *l2Case, o *pt.Obs) error {
 	}
 	if ref.err != "" {
 		return nil
+	}
+	// A column that no event has does not exist in the index at all; what commands make of a field
+	// that exists nowhere (null, or "no such field") is a value-level question outside this property.
+	ref2 := referencedColumns(cs)
+	for j, c := range tb.Cols {
+		if !ref2[c.Name] || c.Kind == kTime {
+			continue
+		}
+		exists := false
+		for _, r := range tb.Rows {
+			if !r[j].IsNull() {
+				exists = true
+				break
+			}
+		}
+		if !exists {
+			o.Class("model_abstains")
+			o.Class("model_abstains/column exists nowhere")
+			return nil
+		}
 	}
 	want, err := runModel(tb, cs.Chain)
 	if err != nil {
